@@ -19,13 +19,13 @@ let () =
   let cases = open_in Sys.argv.(1) and impl = open_in Sys.argv.(2) in
   let ds : (string, dstate) Hashtbl.t = Hashtbl.create 16 in
   let eff : (string, z) Hashtbl.t = Hashtbl.create 16 in
-  let tcp = ref true and hz = ref Z0 in
+  let tcp = ref true and hz = ref Z0 and nsess = ref Z0 in
   let get k = try Hashtbl.find ds k with Not_found -> { rd = Z0; wd = Z0 } in
   iter_lines cases (fun line ->
     let obs = (try input_line impl with End_of_file -> "") in
     match split_ws line with
-    | "S" :: _ :: tp :: _ :: _ :: _ :: h :: _ ->
-      Hashtbl.reset ds; Hashtbl.reset eff; tcp := (tp = "tcp"); hz := z_of_dec h; print_endline "-"
+    | "S" :: _ :: tp :: _ :: ns :: _ :: h :: _ ->
+      Hashtbl.reset ds; Hashtbl.reset eff; tcp := (tp = "tcp"); hz := z_of_dec h; nsess := z_of_dec ns; print_endline "-"
     | ["D"; e; s; w; abs; _] ->
       let k = e ^ s in
       let w = (match w with "R" -> WhR | "W" -> WhW | _ -> WhB) in
@@ -44,23 +44,27 @@ let () =
       let ef = (try Hashtbl.find eff call with Not_found -> Z0) in
       let f = List.map z_of_dec facts in
       let isb x = (x <> Z0) in
+      let pick ok pred = if ok then string_of_cls o else if pred = o then "REJECTED-" ^ string_of_cls o else string_of_cls pred in
       let res =
         (match kind, f with
          | "Read", [data; clo; chi; elo; ehi] ->
            Hashtbl.replace ds k (read_return (get k));
-           if accept_read tol !hz t0 t1 ef data clo chi elo ehi o then o else predict_read t0 ef data clo chi elo ehi
+           pick (accept_read tol !hz t0 t1 ef data clo chi elo ehi o) (predict_read t0 ef data clo chi elo ehi)
          | "Write", [st; clo; chi; olo; ohi; creq] ->
            let early = (o = CLOSED) && (xb_zltb (z_of_int (-1)) creq) && not (xb_zltb t0 creq) in
            if t1 <> z_of_int (-1) then Hashtbl.replace ds k (write_return (e = "c") early o t1 (get k));
-           if accept_write tol !hz t0 t1 ef (isb st) !tcp clo chi olo ohi creq o then o else predict_write t0 ef (isb st) !tcp clo chi creq
+           pick (accept_write tol !hz t0 t1 ef (isb st) !tcp clo chi olo ohi creq o) (predict_write t0 ef (isb st) !tcp clo chi creq)
          | "Flood", [st; clo; chi; olo; ohi; creq; cur; dl] ->
            (* the write in progress started at cur under its own deadline cur + dl (dl = 0: whatever the state says,
               which is 0 after any earlier Write returned) *)
            let ef' = if dl <> Z0 then xb_zadd cur dl else (if cur = t0 then ef else Z0) in
            if t1 <> z_of_int (-1) then Hashtbl.replace ds k (write_return (e = "c") false o t1 (get k));
-           if accept_write tol !hz cur t1 ef' (isb st) !tcp clo chi olo ohi creq o then o else predict_write cur ef' (isb st) !tcp clo chi creq
-         | ("Close" | "CMux" | "SMux"), [first; st] ->
-           if accept_close close_bound t0 t1 (isb first) (isb st) !tcp o then o else predict_close (isb st) !tcp
-         | _ -> ERR) in
-      print_endline (string_of_cls res)
+           pick (accept_write tol !hz cur t1 ef' (isb st) !tcp clo chi olo ohi creq o) (predict_write cur ef' (isb st) !tcp clo chi creq)
+         | ("Close" | "CMux" | "SMux"), [first; st; rearm] ->
+           (* closing an underlay closes its sessions one after the other; a session whose close request cannot be
+              transmitted any more (connection / socket already closed) uses its whole 1 s poll *)
+           let bound = xb_zadd close_bound (xb_zmul !nsess (z_of_int 1000000)) in
+           pick (accept_close bound read_timeout_us t0 t1 (isb first) (isb st) !tcp (isb rearm) o) (predict_close (isb st) !tcp (isb rearm))
+         | _ -> "ERR") in
+      print_endline res
     | _ -> print_endline "-")
